@@ -133,6 +133,50 @@ func runC15(tier string) int {
 			r.Sample(map[string]interface{}{"modifiers": m, "label_modifier": lm, "optimize": opt, "labels_checked": len(seen), "generated_labels": kinds})
 		}
 	})
+	// dictionary sweep: every identifier-like literal of the compiler's own source as the name of each statement kind and
+	// of a label inside a script, under every modifier
+	words := dictIdents()
+	sweepDone := r.Parallel(uint64(len(words))*6*3, func(w int, idx uint64) {
+		mod := c15Mods[idx%3]
+		kind := int(idx / 3 % 6)
+		word := words[idx/18]
+		var src string
+		defGlobal := true
+		switch kind {
+		case 0:
+			src = "script" + mod + " " + word + " {\n\tx\n}\n"
+		case 1:
+			src = "text" + mod + " " + word + " {\n\t\"t\"\n}\n"
+		case 2:
+			src, defGlobal = "movement"+mod+" "+word+" {\n\tu\n}\n", false
+		case 3:
+			src, defGlobal = "mart"+mod+" "+word+" {\n\tI1\n}\n", false
+		case 4:
+			src = "mapscripts" + mod + " " + word + " {\n\tT1: Sx\n}\n"
+		default:
+			src, defGlobal = "script Sq {\n\tx\n\t"+word+mod+":\n\ty\n}\n", false
+		}
+		res := comp.Compile(src, comp.Opts{Optimize: true})
+		r.Add("evaluations", 1)
+		r.Add("dictionary_sweep", 1)
+		want := c15Global(mod, defGlobal)
+		found := 0
+		for _, l := range asmLines(res.Out) {
+			if l.isLabel && l.name == word {
+				found++
+				if l.global != want {
+					found = -100
+				}
+			}
+		}
+		if res.Err != nil || res.Panic != "" || found != 1 {
+			r.Report(harness.Violation{Sig: fmt.Sprintf("C15:dictionary:kind%d", kind), Summary: fmt.Sprintf("name %q, statement kind %d, modifier %q: error %v; label not emitted exactly once with exported=%v\n  output: %q", word, kind, mod, res.Err, want, clip(res.Out, 300)), Replay: map[string]interface{}{"source": src, "output": res.Out}})
+		}
+	})
+	if !sweepDone {
+		r.NotExhaustive("dictionary sweep not completed")
+	}
+	r.Set("dictionary_words", len(words))
 	// the last clause over the control-flow program families: in every program, with the script written without a
 	// modifier, as (global) and as (local), every sub-label is local, the script label follows the modifier, and every
 	// label written in the script is local
@@ -176,5 +220,5 @@ func runC15(tier string) int {
 	})
 	r.Assume("documented defaults: script, text, mapscripts global; movement, mart local; labels inside scripts local; every generated label local")
 	return r.Finish(r.Get("evaluations"), r.Get("nontrivial"),
-		"the full finite product {script, text, movement, mart, mapscripts} x {no modifier, (global), (local)} (3^5) x in-script label modifier (3) x 2 statement orders x optimize on/off x which alternative of two poryswitches (the same label name with different modifiers in the two cases) is compiled x 3 sets of names for the explicit data statements (plain, and shaped like generated hoisted / sub-label / map-script names of scripts that do not exist); the file forces every generated label kind (sub-labels of if/while/switch, hoisted text and movement, inline map script, table, table inline script and their hoisted data); every label definition of the output is classified by the naming scheme and must have the expected scope; plus every program of the control-flow families (C01 / C03 / C04 bounds) x script modifier x optimize: script label per modifier, every other label local; non-trivial = at least one explicit modifier")
+		"the full finite product {script, text, movement, mart, mapscripts} x {no modifier, (global), (local)} (3^5) x in-script label modifier (3) x 2 statement orders x optimize on/off x which alternative of two poryswitches (the same label name with different modifiers in the two cases) is compiled x 3 sets of names for the explicit data statements (plain, and shaped like generated hoisted / sub-label / map-script names of scripts that do not exist); the file forces every generated label kind (sub-labels of if/while/switch, hoisted text and movement, inline map script, table, table inline script and their hoisted data); every label definition of the output is classified by the naming scheme and must have the expected scope; plus every identifier-like literal of the compiler's own source as the name of each statement kind and of a label, under every modifier; plus every program of the control-flow families (C01 / C03 / C04 bounds) x script modifier x optimize: script label per modifier, every other label local; non-trivial = at least one explicit modifier")
 }
